@@ -565,6 +565,20 @@ theorem constraint_so_eq_release {name ver : Text} (hn : NameText name) (hv : Ve
   have he : opOf ['='] = .eq := by decide
   simpa [he] using this
 
+/-- observation (what the code does, confirmed on Go): the release test is applied to the text
+after `=` *including* `@pin`, so a pinned `so:` constraint is always rewritten, even when its
+version ends in `-rN` -/
+theorem constraint_so_pinned {name ver pin : Text} (hn : NameText name)
+    (hso : ∃ t, name = "so:".toList ++ t) (hv : ver.all (fun c => c != '@') = true)
+    (hp : PinText pin) :
+    parseConstraint (name ++ ('=' :: (ver ++ '@' :: pin))) = ⟨name, "0.".toList ++ ver, .eq, pin⟩ :=
+  constraint_so_eq hn hso hv (.some pin hp) (endsWithRelease_pinned ver hp)
+
+example : parseConstraint "so:libfoo.so.1=1.2-r3@edge".toList =
+    ⟨"so:libfoo.so.1".toList, "0.1.2-r3".toList, .eq, "edge".toList⟩ :=
+  constraint_so_pinned (name := "so:libfoo.so.1".toList) (ver := "1.2-r3".toList)
+    (pin := "edge".toList) (by decide) ⟨_, rfl⟩ (by decide) (by decide)
+
 /-- `-r\d+$` -/
 theorem endsWithRelease_iff (v : Text) :
     endsWithRelease v = true ↔ ∃ p d, v = p ++ '-' :: 'r' :: d ∧ IsNum d :=
